@@ -138,7 +138,7 @@ def fragmentsLength (s : Scaffold) : Int := sumInts (s.fragments.map Fragment.le
 
 /-- `fragment_tags()`: a set; modelled duplicate-free in first-occurrence order. -/
 def fragmentTags (s : Scaffold) : List Str :=
-  s.fragments.foldl (fun acc f => f.tags.foldl sAdd acc) []
+  s.fragments.foldl (fun acc f => (f.tags.filter (fun t => !t.isEmpty)).foldl sAdd acc) []   -- `if t:` — an empty column is not a tag
 
 /-- `Scaffold.reverse`: a new scaffold that keeps only name, original_name, original_tags. -/
 def reverse (s : Scaffold) : Scaffold :=
